@@ -14,7 +14,9 @@
 (*         pending departure is spurious.                                              *)
 (* Verdict codes: SELF, DUPJOIN, DUPLEFT, SPURIOUS, EARLY (no completed node-left       *)
 (* epoch at all), EARLY_STALE (waited for a completed node-left epoch, but one that     *)
-(* began before the departure: the witness of known finding StaleLeftEpoch).            *)
+(* began before the departure: the observable class of the known findings StaleLeftEpoch and      *)
+(* LateStartReassign; which emission belongs to which finding is decided by            *)
+(* Trace_MembershipAttr, not here).            *)
 EXTENDS Integers, Sequences, FiniteSets
 
 MonInit(NodeSet) == [canJ |-> [n \in NodeSet |-> TRUE], canL |-> [n \in NodeSet |-> TRUE],
